@@ -2,6 +2,7 @@ package main
 
 import (
 	"fmt"
+	"go/ast"
 	"go/types"
 	"sort"
 	"strings"
@@ -117,6 +118,7 @@ func verifyFunc(p *Prog, fn *ssa.Function, fc *FuncContract, cover bool) (e *Exe
 		k, t := e.specType(fc.PkgPath, q.Type)
 		e.forallVars[q.Name] = e.freshVal("all_"+q.Name, t, k)
 	}
+	e.predeclareSiteWitnesses(st)
 	fr.entry = st.clone()
 	env := e.funcEnv(fr, st)
 	if fc.Recv != nil && fc.Recv.Name == "self" && len(fr.params) > 0 && fr.params[0].K == KRef {
@@ -487,4 +489,50 @@ func touchesProtected(p *Prog, fn *ssa.Function, prop string) bool {
 		}
 	}
 	return false
+}
+
+// predeclareSiteWitnesses: a call-site witness of the form ret / retN / argN is
+// an arbitrary value on paths that never reach the call.
+func (e *Exec) predeclareSiteWitnesses(st *State) {
+	for _, sec := range e.fc.Calls {
+		for _, w := range sec.Witness {
+			id, ok := w.Expr.(*ast.Ident)
+			if !ok {
+				continue
+			}
+			var call ssa.CallInstruction
+			for in, cs := range e.callOrd {
+				if cs.name == sec.Callee && cs.k == sec.N {
+					call, _ = in.(ssa.CallInstruction)
+				}
+			}
+			if call == nil {
+				continue
+			}
+			var t types.Type
+			res := call.Common().Signature().Results()
+			switch {
+			case id.Name == "ret" && res.Len() == 1:
+				t = res.At(0).Type()
+			case strings.HasPrefix(id.Name, "ret") && len(id.Name) > 3:
+				var n int
+				fmt.Sscanf(id.Name[3:], "%d", &n)
+				if n < res.Len() {
+					t = res.At(n).Type()
+				}
+			case strings.HasPrefix(id.Name, "arg"):
+				var n int
+				fmt.Sscanf(id.Name[3:], "%d", &n)
+				if n < len(call.Common().Args) {
+					t = call.Common().Args[n].Type()
+				}
+			}
+			if t == nil {
+				continue
+			}
+			v := e.freshVal("w_"+w.Name+"_unreached", t, kindOf(t))
+			e.typeFacts(v, t, st)
+			e.siteVars[w.Name] = v
+		}
+	}
 }
